@@ -3,6 +3,7 @@ import FsutilModel.Order
 import FsutilModel.ValidatorMain3
 import FsutilModel.Clean3
 import FsutilModel.Model.ValidatorB
+import FsutilModel.ValidatorBridge7
 /-! # C12 — Stream validator accepts exactly ordered, parent-closed, contained sequences
 
 Property theorems only (helper lemmas live in the other modules). -/
@@ -47,6 +48,27 @@ theorem validator_iff_spec_components (xs : List Ent) (hx : ∀ x ∈ xs, PlainP
 theorem lexical_test_iff_plain (p : Path) :
     isCleanRel true p ↔ ∃ cs, PlainList cs ∧ p = joinSep cs :=
   isCleanRel_iff_plain p
+
+/-- **C12 at byte level, unbounded**: the verbatim transcription of `Validator.HandleChange` — lexical tests on the byte
+string, `filepath.Dir` / `filepath.Base`, the `sort.Search` binary search over `parentDirs`, the last-child comparison —
+returns, for EVERY sequence of changes (any length, any byte strings as paths, adds and deletes), exactly what the
+property's specification returns: accept, or reject at the same index. -/
+theorem validator_eq_spec (cs : List Chg) : vrun true cs = specRun cs :=
+  vrun_eq_specRun cs
+
+/-- … in particular the slice expressions and index computations of `HandleChange` never go out of range -/
+theorem validator_never_panics (cs : List Chg) (i : Nat) : vrun true cs ≠ .panicAt i := by
+  rw [validator_eq_spec]
+  suffices h : ∀ (cs : List Chg) (pre : List Chg) (k : Nat), specRunFrom pre k cs ≠ .panicAt i from h cs [] 0
+  intro cs
+  induction cs with
+  | nil => intro pre k; simp [specRunFrom]
+  | cons c cs ih =>
+    intro pre k
+    unfold specRunFrom
+    split
+    · exact ih _ _
+    · simp
 
 /-- F1 witness (kernel-checked): the lexical test as it stood lets ".." through. -/
 theorem dotdot_passes_unrepaired : isCleanRel false dd := dotdot_passes_today
